@@ -550,13 +550,19 @@ class Analyzer(object):
             if tag in p:
                 del w.pred[p]
 
-    def kill_mem_preds(self, w):
-        """a store through a pointer / a call may change memory read by predicates that mention -> or [ or *"""
+    def kill_mem_preds(self, w, field=None):
+        """a store through a pointer / a call may change memory read by predicates that mention -> or [ or *.
+        field: name of the struct field a direct store writes (then only predicates on that field die)"""
         for p in list(w.pred):
             if '->' in p or '[' in p or '(*' in p:
-                # keep predicates over caller-owned option/flag fields that the library never writes
+                if field is not None:
+                    if ('->' + field) in p or ('.' + field) in p:
+                        del w.pred[p]
+                    continue
+                # keep predicates over caller-owned option/flag fields that callees never write
+                # (MemModel is fixed by ?SetupSpace / ?LUMemInit before anything is allocated; direct stores are handled above)
                 if any(x in p for x in ('->Stype', '->Fact', '->Trans', '->Equil', '->ColPerm', '->RowPerm', '->SymmetricMode',
-                                        '->IterRefine', '->PivotGrowth', '->ConditionNumber', '->ILU_', '->ncol', '->nrow')):
+                                        '->IterRefine', '->PivotGrowth', '->ConditionNumber', '->ILU_', '->ncol', '->nrow', '->MemModel')):
                     continue
                 del w.pred[p]
 
@@ -666,7 +672,7 @@ class Analyzer(object):
                 self.kill_preds(lv.a['id'], w)
                 return
             self.deref_uses(lv, w, node)
-            self.kill_mem_preds(w)
+            self.kill_mem_preds(w, field=lv.a.get('name') if lv.k == 'Member' else None)
             rv = strip(e.c[1])
             if e.a['op'] == '=':
                 fresh = rv.k == 'Call' and self.sums.is_alloc_call(rv, self.f.unit)
